@@ -54,6 +54,9 @@ func splitMap(s string, addKV func(k, v string) error) error {
 	inValue := false
 	curKey := ""
 	curVal := ""
+	// the key may legitimately be the empty string (written ""), so whether
+	// one has been read is tracked separately
+	haveKey := false
 	for tok := sc.Scan(); sc.ErrorCount == 0; tok = sc.Scan() {
 		switch tok {
 		case scanner.String, scanner.RawString, scanner.Ident, scanner.Float, scanner.Int:
@@ -68,14 +71,15 @@ func splitMap(s string, addKV func(k, v string) error) error {
 
 			if inKey {
 				curKey = txt
-			} else if inValue && curKey != "" {
+				haveKey = true
+			} else if inValue && haveKey {
 				curVal = txt
 			} else {
 				return fmt.Errorf("unexpected string literal: %s",
 					sc.TokenText())
 			}
 		case ',':
-			if curKey != "" {
+			if haveKey {
 				if addErr := addKV(curKey, curVal); addErr != nil {
 					return fmt.Errorf("map parsing failed on key %q: %s",
 						curKey, addErr)
@@ -84,16 +88,17 @@ func splitMap(s string, addKV func(k, v string) error) error {
 
 			curKey = ""
 			curVal = ""
+			haveKey = false
 			inKey = true
 			inValue = false
 		case ':':
-			if inValue || curKey == "" {
+			if inValue || !haveKey {
 				return fmt.Errorf("unexpected colon")
 			}
 			inKey = false
 			inValue = true
 		case scanner.EOF:
-			if curKey != "" {
+			if haveKey {
 				if addErr := addKV(curKey, curVal); addErr != nil {
 					return fmt.Errorf("map parsing failed on key %q: %s",
 						curKey, addErr)
